@@ -1,3 +1,4 @@
+pub mod c01;
 pub mod c02;
 pub mod c03;
 pub mod c04;
@@ -13,6 +14,8 @@ pub mod c13;
 pub mod rules;
 pub mod c14;
 pub mod c15;
+pub mod c16;
+pub mod c16_sched;
 pub mod c17;
 pub mod c18;
 
@@ -24,6 +27,7 @@ type ReplayFn = fn(&Env, &Case) -> Vec<Violation>;
 
 fn table(prop: &str) -> Option<(RunFn, ReplayFn)> {
     Some(match prop {
+        "C01" => (c01::run, c01::replay),
         "C02" => (c02::run, c02::replay),
         "C03" => (c03::run, c03::replay),
         "C04" => (c04::run, c04::replay),
@@ -38,6 +42,7 @@ fn table(prop: &str) -> Option<(RunFn, ReplayFn)> {
         "C13" => (c13::run, c13::replay),
         "C14" => (c14::run, c14::replay),
         "C15" => (c15::run, c15::replay),
+        "C16" => (c16::run, c16::replay),
         "C17" => (c17::run, c17::replay),
         "C18" => (c18::run, c18::replay),
         _ => return None,
